@@ -11,6 +11,7 @@ pub mod c08;
 pub mod c09;
 pub mod c10;
 pub mod c11;
+pub mod c12;
 pub mod c13;
 pub mod c14;
 pub mod c15;
@@ -21,5 +22,5 @@ pub mod c19;
 pub mod c20;
 
 pub fn all() -> Vec<PropDef> {
-    vec![c01::def(), c02::def(), c03::def(), c04::def(), c06::def(), c07::def(), c08::def(), c09::def(), c10::def(), c11::def(), c13::def(), c14::def(), c15::def(), c16::def(), c17::def(), c18::def(), c19::def(), c20::def()]
+    vec![c01::def(), c02::def(), c03::def(), c04::def(), c06::def(), c07::def(), c08::def(), c09::def(), c10::def(), c11::def(), c12::def(), c13::def(), c14::def(), c15::def(), c16::def(), c17::def(), c18::def(), c19::def(), c20::def()]
 }
